@@ -4,7 +4,7 @@ device owns exactly one slot, no slot is shared between internal variables, the 
 every borrowed (external) variable points at the slot of the source variable of the device named by its index field, and the value
 seen through the variable is the value stored in the DAE array at its address.
 """
-CASES = ['kundur/kundur_full.xlsx', 'ieee14/ieee14_full.xlsx', 'ieee39/ieee39_full.xlsx']
+CASES = ['kundur/kundur_full.xlsx', 'mixed:kundur', 'ieee14/ieee14_full.xlsx', 'ieee39/ieee39_full.xlsx']
 
 
 def run(tier='quick'):
@@ -15,9 +15,9 @@ def run(tier='quick'):
     import andes
     logging.getLogger('andes').setLevel(logging.CRITICAL)
     n = 0
-    for case in (CASES if tier == 'thorough' else CASES[:2]):
+    for case in (CASES if tier == 'thorough' else CASES[:3]):
         with contextlib.redirect_stdout(io.StringIO()), contextlib.redirect_stderr(io.StringIO()):
-            ss = andes.load(andes.get_case(case), default_config=True, no_output=True)
+            ss = andes.load(__import__('contracts.mixed_case', fromlist=['resolve']).resolve(case), default_config=True, no_output=True)
             ss.PFlow.run()
             ss.TDS.init()
         owner = {'x': {}, 'y': {}}
